@@ -12,6 +12,31 @@ CHECKS = {
     text="TLC exhausts Mxcsr.tla (3 context objects, 18 requests, nesting 3, exceptions at any depth, re-entry, hardware flag noise) for OnlyRequestedBits/ExitRestores/BalancedIsIdentity/NestIsComposition; every behaviour TLC enumerates up to the stated length plus simulated walks over all 45 requests is driven through real with-statements, decorators and explicit protocol calls with real exception propagation, and every step (register word before/after read by an independent stub, arithmetic effects of FZ/DAZ/RC) is validated clause by clause by the trace spec. Histories are enumerated, not sampled, up to the bound.",
     note="Trusted: TLC, the harness's _mm_getcsr stub, NumPy float32 scalar arithmetic executing SSE instructions. Sticky status flags are treated as environment noise between steps. Bounds: nesting <= 3, behaviour length <= 7 (quick) / 9 (thorough).",
     design="6/C18"),
+
+ "C07": dict(
+    category="model_checking",
+    technique="TLA+ spec FAContext.tla (hash-consing registry, key scheme vs structural identity) model-checked by TLC; TLC-enumerated construction histories replayed into a real Context; every construction validated by Trace_Context.tla",
+    text="TLC exhausts FAContext.tla (all histories of <= 4 constructions over 3 symbols, 14 Python values incl. 0.0/-0.0, 1/1.0/True, numpy scalars, NaN objects, named constants; kinds negative/subtract/lt/select) for NoAlias and Canonical; every enumerated history, simulated 12-step histories over a larger alphabet, and TLC-enumerated shapes of confusable value pairs (neighbours, regrouped bytes, equal hash, equal int, cross-type...) are replayed into a fresh Context and each returned object is judged by the trace spec: structure equals the request and it is an earlier object iff the requests are structurally equal (requests are compared with requests, never with what the object claims).",
+    note="Trusted: TLC, Python `is`, the driver's identity numbering. Leniencies: NaN constants unconstrained; like constrained by type only. Bounds: exhaustive to 4 steps (3 quick) on the stated alphabets, simulation to 12 steps; contexts with enable_alt are not replayed.",
+    design="6/C07"),
+ "C13": dict(
+    category="model_checking",
+    technique="TLA+ spec Convert.tla (values of fractions, binary strings parsed in TLA+, mpf tuples, expansions, multiwords over IEEE.tla) with TLC: exhaustive toy-format model check of the oracle and transcriptions; recorded conversions validated by Trace_Convert.tla",
+    text="Every float16 pattern and shaped/sampled float32/float64 patterns are pushed through each conversion route; the intermediate object is logged uninterpreted and TLC decides exact value equality and bit-identical round trip. U1 checks IEEE.tla coherence, the TLA+ binary-string parser and transcriptions of float2fraction / the mpf2multiword loop on all values of toy formats.",
+    note="Trusted: TLC, BigInt/IEEE modules (self-tested against NumPy), mpmath's _mpf_ tuples. -0 -> +0 accepted through fractions and mpf-based routes; inf/NaN through fractions unconstrained. Known findings: mpf2multiword on zero/specials, p < prec/2 and max_length=1 (not repaired).",
+    design="6/C13"),
+ "C15": dict(
+    category="model_checking",
+    technique="TLA+ spec Rounding.tla (mpf -> float rounding relation, backend clauses) with TLC: exhaustive toy-format model check; TLC-enumerated (mantissa, exponent) shapes and backend configurations driven through mpf2float / vectorize_with_mpmath; events validated by Trace_Rounding.tla",
+    text="The correctly rounded image of an exact dyadic is computed in TLA+ (ties to even, overflow threshold, half-smallest-subnormal threshold); mpf2float and the mpmath backend (identity, negation, square, add, sub, mul; flush_subnormals in {unspecified, False, True}; extra precision settings; scalar/array/call protocols) are judged against it on TLC-enumerated tie/edge shapes at precisions p..10p and random mantissas.",
+    note="Trusted: TLC, BigInt/IEEE, mpmath constructors. Nothing demanded where RN is subnormal (statement); sign of exact zero free. Known finding: double rounding when extra precision is used.",
+    design="6/C15"),
+ "C16": dict(
+    category="model_checking",
+    technique="TLA+ spec Poly.tla (exact polynomial algebra over BigInt rationals) with TLC: ring laws model-checked on all small polynomials; TLC-enumerated cases (function x scheme x degree x flags x zero pattern) driven through both copies of the polynomial code; results validated exactly by Trace_Poly.tla",
+    text="PEval/PAdd/PMul/PDeriv/Taylor shift/ratio form/DivModOK are defined by recursion in TLA+ and compared exactly (cross-multiplied rationals) with the results of polynomial.py and the FractionContext copies in floating_point_algorithms.py, for every scheme, degree 0..40 and 499..501, forward/reverse, Laurent and ratio forms, zero patterns.",
+    note="Trusted: TLC, BigInt. Sampled rational coefficients per enumerated case. Not covered: zeros_aberth, compensated_horner (floating point).",
+    design="6/C16"),
 }
 NA_REASON = "not built yet in this round (see DESIGN.md section 10 build order); no check is registered, nothing is claimed"
 
